@@ -226,9 +226,9 @@ class BaseOPB:
                 if c<0:
                     raise ValueError("coefficients should be positive")
                 maxv = max(abs(l),maxv)
-            self._numvar = maxv
             if data[-2] not in ['>=','==']:
                 raise ValueError("only >= and == operators allowed")
+            self._numvar = maxv
         except (TypeError, ValueError) as te:
             msg = "constraint is not well formatted"
             raise ValueError(msg) from te
@@ -341,10 +341,10 @@ not have any effect."""
         """
         data = [(1,l) for l in clause] + ['>=', 1]
 
-        self._constraints.append(data)
-
         if check:
             self._check_and_update(data)
+
+        self._constraints.append(data)
 
     def add_clauses_from(self, clauses, check=True):
         """Add a sequence of clauses to the CNF
@@ -391,10 +391,11 @@ not have any effect."""
             clause. (default: True)
         """
         constraint = normalize_opb(constraint)
-        self._constraints.append(constraint)
 
         if check:
             self._check_and_update(constraint)
+
+        self._constraints.append(constraint)
 
     def add_constraints_from(self, constraints, check=True):
         """Add a sequence of constraints to the formula
